@@ -66,6 +66,14 @@ RECURSIVE FirstMatchFrom(_, _, _)
 FirstMatchFrom(rules, r, i) == IF i > Len(rules) THEN 0 ELSE IF Matches(rules[i], r) THEN i ELSE FirstMatchFrom(rules, r, i + 1)
 FirstMatch(rules, r) == FirstMatchFrom(rules, r, 1)
 
+(* the upstream that serves request r under rule list `list`: a connector name, or "refused" *)
+Decision(list, r, conns) ==
+  LET i == FirstMatch(list, r) IN
+  IF i = 0 THEN "refused"
+  ELSE IF list[i].t = "deny" THEN "refused"
+  ELSE IF r.feature \notin conns[list[i].t].features THEN "refused"
+  ELSE list[i].t
+
 (* set_rules accepts a list iff every rule compiles, type-checks and names deny or an existing connector *)
 Valid(list) == \A i \in 1..Len(list) : list[i].f \notin BadFilterIds /\ (list[i].t = "deny" \/ list[i].t \in DOMAIN Connectors)
 
@@ -103,7 +111,7 @@ Init == /\ reqs \in [Conns -> ReqSet] /\ lists \in ListSeqs
         /\ log = [c \in Conns |-> <<"ClientConnected">>]
         /\ began = [c \in Conns |-> 0] /\ endedPosts = [c \in Conns |-> 0]
 
-Rest(c) == <<rules, ver, posting, postPhase, postOk>>
+Terminal(c) == phase[c] \in {"denied", "nofeature", "connfail", "finished"}
 Push(c, st) == log' = [log EXCEPT ![c] = Append(@, st)]
 
 Enqueue(c) == /\ phase[c] = "new"
@@ -162,6 +170,15 @@ RelayOk(c) == /\ phase[c] = "connected"
                     log' = [log EXCEPT ![c] = @ \o halves \o <<"Terminated">>]
               /\ UNCHANGED <<reqs, lists, rules, ver, posting, postPhase, postOk, snap, pos, evals, chosen, upOpened, upUp, replies, began, endedPosts>>
 
+(* a finished connection slot is reused for the next request of the same client task (trace validation only) *)
+Recycle(c, r) == /\ Terminal(c)
+                 /\ reqs' = [reqs EXCEPT ![c] = r]
+                 /\ phase' = [phase EXCEPT ![c] = "new"] /\ snap' = [snap EXCEPT ![c] = NoSnap]
+                 /\ pos' = [pos EXCEPT ![c] = 1] /\ evals' = [evals EXCEPT ![c] = 0] /\ chosen' = [chosen EXCEPT ![c] = 0]
+                 /\ upOpened' = [upOpened EXCEPT ![c] = FALSE] /\ upUp' = [upUp EXCEPT ![c] = FALSE]
+                 /\ replies' = [replies EXCEPT ![c] = <<>>] /\ log' = [log EXCEPT ![c] = <<"ClientConnected">>]
+                 /\ UNCHANGED <<lists, rules, ver, posting, postPhase, postOk, began, endedPosts>>
+
 ---------------------------------------------------------------------------
 (* rule hot swap *)
 SwapBegin == /\ postPhase = "idle" /\ Len(postOk) < Len(lists)
@@ -190,7 +207,6 @@ Next == \/ \E c \in Conns : Enqueue(c) \/ Snapshot(c) \/ EvalRule(c) \/ Deny(c) 
 Spec == Init /\ [][Next]_vars
 
 ---------------------------------------------------------------------------
-Terminal(c) == phase[c] \in {"denied", "nofeature", "connfail", "finished"}
 Served(c) == phase[c] \in {"connecting", "connected", "finished", "connfail"}
 
 (* C02 *)
